@@ -260,6 +260,7 @@ func extractUnpicklerCases(p *core.Prog, fn *ssa.Function) (cases map[string]*un
 func runC08(p *core.Prog, r *core.Result) {
 	r.Decided = []string{
 		"R8.12 the fingerprints are compared in full: diffEnv reports 'unchanged' only on whole-value equality of the recorded and the current environment (shared with C01 R1.13)",
+		"R8.13 values of different kinds stay different in the compared form: (a) no case of the host unpickler returns one of its arguments, or the argument tuple, as it is - a pickled target reference would then decode to the bare label string and compare equal to that string, a builtin to a (name, receiver) tuple; (b) the equality that decides 'unchanged' tells numbers of different kinds apart - starlark.Equal/EqualDepth does not (1 == 1.0), so an edit of 3 into 3.0 leaves the fingerprint equal",
 		"R8.1 host pickler and unpickler agree: every (module, name) the pickler produces has an unpickler case that checks exactly the arity of the tuple the pickler builds",
 		"R8.2 for every in-module value type with attributes, the names it advertises (AttrNames) are names it answers (Attr): the encoder's has-attrs branch never encodes a nil",
 		"R8.3 a pickler case whose arguments are an open environment (can contain the subject again, since recursion is enabled) needs an in-progress guard, because NEWOBJ results are memoized only after their arguments",
@@ -394,6 +395,7 @@ func runC08(p *core.Prog, r *core.Result) {
 	// ---- R8.8 values with run-time contents are not fingerprinted by content
 	checkRuntimeStateNotPickledByContent(p, r, "R8.8")
 	checkEnvVerdictWholeEquality(p, r, "R8.12")
+	checkKindsDistinguishable(p, r, unpicklers, "R8.13")
 
 	// ---- R8.9 the pickler's own state lives for one encoding
 	checkPicklerStateFresh(p, r, picklers)
@@ -1208,6 +1210,82 @@ func checkPicklerStateFresh(p *core.Prog, r *core.Result, picklers []*ssa.Functi
 	}
 	if n == 0 {
 		r.OK("R8.9", "dawn#pickler-captures-nothing-mutable", "-", "the %d pickler function(s) capture no map, slice, pointer or channel", len(picklers))
+	}
+}
+
+// checkKindsDistinguishable implements R8.13.
+func checkKindsDistinguishable(p *core.Prog, r *core.Result, unpicklers []*ssa.Function, rule string) {
+	n := 0
+	for _, up := range unpicklers {
+		if len(up.Params) < 3 {
+			continue
+		}
+		nameP, argsP := up.Params[1], up.Params[2]
+		k := 0
+		for _, ret := range core.ReturnsOf(up) {
+			vals := core.RetVals(ret)
+			if len(vals) != 2 || !core.IsNilConst(vals[1]) {
+				continue
+			}
+			n++
+			k++
+			v := vals[0]
+			if mi, ok := v.(*ssa.MakeInterface); ok {
+				v = mi.X
+			}
+			bare := ""
+			switch x := v.(type) {
+			case *ssa.Parameter:
+				if x == argsP {
+					bare = "the argument tuple as it is"
+				}
+			case *ssa.UnOp:
+				if ia, ok := x.X.(*ssa.IndexAddr); ok && x.Op == token.MUL && ia.X == ssa.Value(argsP) {
+					bare = "one of its arguments as it is"
+				}
+			}
+			// which kind: the name the return is reached under
+			kind := ""
+			p.FactsAt(ret).Find(func(cv ssa.Value, val bool) bool {
+				if b, ok := cv.(*ssa.BinOp); ok && val && b.Op == token.EQL && b.X == ssa.Value(nameP) {
+					if sname, ok := core.ConstString(b.Y); ok {
+						kind = sname
+					}
+				}
+				return false
+			})
+			construct := fmt.Sprintf("%s#decoded-form-carries-its-kind:%s", fname(up), kind)
+			if kind == "" {
+				construct = fmt.Sprintf("%s#decoded-form-carries-its-kind-%d", fname(up), k)
+			}
+			if bare != "" {
+				r.Bad(rule, construct, p.InstrPos(ret), "the unpickler returns %s for this kind: the decoded form of a host value is then an ordinary value (a string, a tuple) and compares equal to that ordinary value - rebinding a global from a target object to the string that spells its label leaves the fingerprint unchanged", bare)
+			} else {
+				r.OK(rule, construct, p.InstrPos(ret), "the decoded form is built by the unpickler (tagged), not a bare argument")
+			}
+		}
+	}
+	r.Floor(rule, n, 3, "successful returns of the host unpickler")
+	// (b) the deciding equality and numeric kinds
+	if diffEnv := p.Func("", "function", "diffEnv"); diffEnv != nil {
+		var at *ssa.Call
+		for f := range staticClosure(p, diffEnv) {
+			if f.Pkg != diffEnv.Pkg {
+				continue
+			}
+			for _, c := range core.Calls(f) {
+				if call, ok := c.(*ssa.Call); ok && (core.IsCallTo(c, pkgStar, "EqualDepth") || core.IsCallTo(c, pkgStar, "Equal")) {
+					if at == nil || p.InstrPos(call) < p.InstrPos(at) {
+						at = call
+					}
+				}
+			}
+		}
+		if at != nil {
+			r.Bad(rule, "dawn.(*function).diffEnv#numeric-kinds", p.InstrPos(at), "the recorded and the current environment are compared with Starlark's ==, which identifies an int with the float of the same value (1 == 1.0) although the codec keeps them apart: editing SCALE = 3 into SCALE = 3.0 changes what the function computes but not its fingerprint, and the target is not re-executed")
+		} else {
+			r.OK(rule, "dawn.(*function).diffEnv#numeric-kinds", p.Pos(diffEnv.Pos()), "the environments are not compared with Starlark's == (a type-exact comparison is in place)")
+		}
 	}
 }
 
